@@ -16,6 +16,7 @@ theorem too_many_columns (s : Pkg) (name : List Char) (cols : List Column)
     unfold createError
     split; · exact ⟨_, rfl⟩
     split; · exact ⟨_, rfl⟩
+    split; · exact ⟨_, rfl⟩
     exact ⟨_, rfl⟩
   obtain ⟨k, hk⟩ := this
   exact ⟨k, by unfold createTable; rw [hk]⟩
